@@ -20,8 +20,8 @@ import json
 import re
 
 from ..core import (AnalysisBroken, Inliner, canon, strip, strip_load, last_member, walk, subst, simplify, names_of, field_chain,
-                    forward, norm_cond, lvalue_steps, is_int, partition_flags, PURE_CALLS, Block, fold)
-from ..analyses import is_call, callback_kind, locksets, held, lock_effect, list_empty_test, LOCK_FUNCS
+                    forward, norm_cond, lvalue_steps, is_int, partition_flags, PURE_CALLS, Block, fold, _is_boolean_expr)
+from ..analyses import is_call, callback_kind, locksets, held, lock_effect, list_empty_test, LOCK_FUNCS, lock_id
 from .. import roles
 
 LH = 'iv_list_head'
@@ -297,10 +297,14 @@ def _fresh_base(fn, e):
             base = varname(x['base'])
             break
         x = strip(x['base'])
-    return base is not None and any(
-        s_['ev'] == 'store' and 'rhs' in s_ and varname(s_['lhs']) == base and
-        any(y.get('k') == 'call' and y.get('callee') in ('malloc', 'calloc') for y in walk(s_['rhs']))
-        for s_ in fn.events())
+    if base is None:
+        return False
+    if any(s_['ev'] == 'store' and 'rhs' in s_ and varname(s_['lhs']) == base and
+           any(y.get('k') == 'call' and y.get('callee') in ('malloc', 'calloc') for y in walk(s_['rhs']))
+           for s_ in fn.events()):
+        return True
+    # the allocation reaches the base variable through copies (an allocator helper returning object-or-NULL, inlined)
+    return base in fresh_objects(fn)
 
 
 def immutable_key(prog, key):
@@ -316,7 +320,7 @@ def immutable_key(prog, key):
             if _fresh_base(fn, e):
                 continue
             fresh = False
-            if fn.file in files and fn.static:
+            if fn.file in files:
                 copies = [(g, x) for g in _raw_contexts(prog) for x in g.events()
                           if x['ev'] == 'store' and x.get('loc') == e.get('loc') and last_member(x['lhs']) == last_member(e['lhs'])]
                 fresh = bool(copies) and all(_fresh_base(g, x) for g, x in copies)
@@ -343,6 +347,17 @@ def value_propagate(g, prog):
                 v = strip(x['e'])
                 if isinstance(v, dict) and v.get('k') == 'var':
                     addr_taken.add(v['name'])
+
+    # locals that only ever hold a decision: every store assigns an integer constant or a boolean expression
+    stores_ = {}
+    for e in g.events():
+        if e['ev'] == 'store':
+            l = strip(e['lhs'])
+            if isinstance(l, dict) and l.get('k') == 'var':
+                r = strip(e.get('rhs')) if 'rhs' in e else None
+                okc = e.get('op') == '=' and isinstance(r, dict) and (r.get('k') == 'int' or _is_boolean_expr(r))
+                stores_.setdefault(l['name'], []).append(okc and l.get('vk') == 'local')
+    flaglike = {n for n, oks in stores_.items() if all(oks) and n not in addr_taken}
 
     def mutable(keys):
         return any(k[0] != 'var' and (k[0] == 'mem' or not immutable_key(prog, k)) for k in keys)
@@ -396,6 +411,10 @@ def value_propagate(g, prog):
                 src = [x for x in S if x[0] == v] if v else []
                 if src and v != l['name']:
                     S = frozenset(x for x in S if x[0] != l['name']) | {(l['name'],) + src[0][1:]}
+                elif v and v != l['name'] and v in flaglike:
+                    # copy of a decision (`fate = $ret2; unlock(); switch (fate)`): the copy reads like the local it copies
+                    # while neither is reassigned, so that the flag partitioning sees the test of the decision itself
+                    S = bind(S, l['name'], {'k': 'load', 'e': dict(strip(e['rhs']))}, frozenset({('var', v)}), 'val')
         return S
 
     _, ev_in = forward(g, frozenset(), transfer, lambda a, b: a & b)
@@ -848,7 +867,36 @@ def scalarise_local_structs(g):
     return n[0]
 
 
+def resolve_embedded_calls(g):
+    """core.Inliner replaces the call expression of an inlined helper by its return temporary only in the rest of the
+    *source block* that holds the call.  An expression that spells the call again in a later block keeps the text of the call
+    (`return iv_list_empty(done_queue(p)) ? A : B;`: the condition is evaluated before the diamond, the value is built after
+    it).  A call expression (callee, source location) names one evaluation; where exactly one inlined instance of it exists,
+    the remaining spellings are replaced by that instance's return temporary."""
+    enters, rets = {}, {}
+    for e in g.events():
+        if e['ev'] == 'enter' and 'callee' in e and e.get('inst') is not None:
+            enters[e['inst']] = (e['callee'], e.get('loc'))
+    for e in g.events():
+        if e['ev'] == 'leave' and e.get('retvar') and e.get('inst') in enters:
+            rets.setdefault(enters[e['inst']], set()).add((e['retvar'], e.get('rettype')))
+    uniq = {k: next(iter(v)) for k, v in rets.items() if len(v) == 1}
+    if not uniq:
+        return 0
+    n = [0]
+
+    def r(nd):
+        if nd.get('k') == 'call' and (nd.get('callee'), nd.get('loc')) in uniq:
+            name, typ = uniq[(nd.get('callee'), nd.get('loc'))]
+            n[0] += 1
+            return {'k': 'load', 'e': {'k': 'var', 'name': name, 'vk': 'local', 'type': typ}}
+        return None
+    _map_exprs(g, lambda x: subst(x, r))
+    return n[0]
+
+
 def normalise(g, prog):
+    resolve_embedded_calls(g)
     deref_addr(g)
     scalarise_local_structs(g)
     fold_container_of(g, prog)
@@ -1171,19 +1219,75 @@ def _zero_edge(blk, si, facts, tracked):
     return facts
 
 
+def _path_tested(g):
+    """Access paths through memory (`pool->started_threads`) that branches at more than one source location compare with
+    zero: {canonical text: (locals it reads, member steps it reads)}.  The second spelling is usually not a second read
+    but the condition written again at the join of a short-circuit value (`if (!(a || b))`, `ok = a && b; if (ok)`):
+    a path that took the `a is true` edge cannot take the edge that needs `a == 0` while nothing could have changed it."""
+    cache = g.__dict__.get('_h12_pt')
+    if cache is None:
+        seen = {}
+        for blk in g.blocks.values():
+            for si in range(len(blk.succ)):
+                for (op, lc, rc, l, r) in atoms_on(blk, si):
+                    x = strip(l)
+                    if op in ('==', '!=') and rc == '0' and isinstance(x, dict) and x.get('k') == 'member' and _pure_path(l):
+                        seen.setdefault(lc, (set(), l))[0].add(blk.term.get('loc'))
+        cache = {lc: (frozenset(names_of(l)), frozenset(lvalue_steps(l))) for lc, (locs, l) in seen.items() if len(locs) > 1}
+        g.__dict__['_h12_pt'] = cache
+    return cache
+
+
+def _path_step(e, facts, paths):
+    """forget what the path knows about a memory read when it may have changed: a store to one of the members / locals the
+    expression reads (type-based), a store through a bare pointer, any call that is not a pure helper (lock operations,
+    user callbacks, library calls)"""
+    if not paths or not any(f[0] in paths for f in facts):
+        return facts
+    ev = e['ev']
+    if ev == 'call':
+        if 'fnexpr' in e or e.get('callee') not in PURE_CALLS:
+            return frozenset(f for f in facts if f[0] not in paths)
+        return facts
+    if ev == 'decl':
+        return frozenset(f for f in facts if not (f[0] in paths and e['name'] in paths[f[0]][0]))
+    if ev == 'store':
+        steps = set(lvalue_steps(e['lhs']))
+        v = varname(e['lhs'])
+        l = strip(e['lhs'])
+        wild = not steps and v is None
+        return frozenset(f for f in facts if not (f[0] in paths and (wild or (steps & paths[f[0]][1]) or (v is not None and v in paths[f[0]][0]))))
+    return facts
+
+
+def _path_edge(blk, si, facts, paths):
+    if not paths:
+        return facts
+    for (op, lc, rc, l, r) in atoms_on(blk, si):
+        if op in ('==', '!=') and rc == '0' and lc in paths:
+            z = (op == '==')
+            if (lc, not z) in facts:
+                return None
+            facts = facts | {(lc, z)}
+    return facts
+
+
 def worlds(g, init, step, edge=None):
     """Forward may-analysis whose state is a finite set of abstract worlds (path-sensitive up to the world).
     step(event, world) -> iterable of worlds; edge(block, succ index, world) -> world or None (infeasible).
     Every world also carries what the path knows about locals being zero / NULL (assigned NULL, a constant, an address, a
     container_of result, or tested), and edges contradicting it are infeasible: a helper returning "item or NULL" or
-    "found / not found" reads like the code with the test inlined.
+    "found / not found" reads like the code with the test inlined.  The same for memory reads that are compared with zero at
+    more than one place (_path_tested: the condition of a short-circuit value written again at its join), until something
+    may have changed them.
     Returns {(block, i): frozenset(worlds)} (state before event i; i == len(events): at the block end)."""
     tracked = _zero_tested(g)
+    paths = _path_tested(g)
 
     def tr(e, S):
         out = set()
         for (w, facts) in S:
-            f2 = _zero_step(e, facts, tracked)
+            f2 = _path_step(e, _zero_step(e, facts, tracked), paths)
             for w2 in step(e, w):
                 out.add((w2, f2))
         return frozenset(out)
@@ -1194,6 +1298,8 @@ def worlds(g, init, step, edge=None):
         out = set()
         for (w, facts) in S:
             f2 = _zero_edge(blk, si, facts, tracked)
+            if f2 is not None:
+                f2 = _path_edge(blk, si, f2, paths)
             if f2 is None:
                 continue
             w2 = edge(blk, si, w) if edge is not None else w
@@ -1602,6 +1708,120 @@ def all_atoms(g):
         for si in range(len(blk.succ)):
             for at in atoms_on(blk, si):
                 yield at
+
+
+# --------------------------------------------------------------------------
+# teardown of a pool (R-C12g)
+# --------------------------------------------------------------------------
+
+ALLOC = ('malloc', 'calloc')
+
+
+def fresh_objects(g):
+    """Locals of the context that only ever hold an object allocated in this very context (every definition is a malloc /
+    calloc result, NULL, or a copy of such a local; at least one allocation; the address of the local is never taken).
+    Such an object has not been published: no item can have been submitted to it, releasing it loses nothing."""
+    defs, taken = {}, set()
+    for e in g.events():
+        for x in walk(e):
+            if x.get('k') == 'addr' and varname(x['e']):
+                taken.add(varname(x['e']))
+        if e['ev'] == 'store':
+            v = varname(e['lhs'])
+            if v is not None:
+                defs.setdefault(v, []).append(e)
+    def kind(e, fresh):
+        if e.get('op') != '=' or 'rhs' not in e:
+            return None
+        r = strip(e['rhs'])
+        if not isinstance(r, dict):
+            return None
+        if r.get('k') == 'call' and r.get('callee') in ALLOC:
+            return 'alloc'
+        if r.get('k') == 'null' or (r.get('k') == 'int' and r['v'] == 0):
+            return 'null'
+        if r.get('k') == 'var' and r['name'] in fresh:
+            return 'copy'
+        return None
+    fresh = {v for v in defs if v not in taken}
+    grown = True
+    while grown:
+        grown = False
+        for v in sorted(fresh):
+            if any(kind(e, fresh) is None for e in defs[v]):
+                fresh.discard(v)
+                grown = True
+    # at least one allocation reaches the local (directly or through copies)
+    has = {v for v in fresh if any(kind(e, fresh) == 'alloc' for e in defs[v])}
+    grown = True
+    while grown:
+        grown = False
+        for v in fresh - has:
+            if any(kind(e, fresh) == 'copy' and strip(e['rhs'])['name'] in has for e in defs[v]):
+                has.add(v)
+                grown = True
+    return has
+
+
+def _points_to(x, rec, also=()):
+    """the expression is a pointer to an object of record `rec` (a typed local / parameter, one of the untyped locals
+    `also` that hold the same pointer, or the public priv pointer)"""
+    x = strip(x)
+    if not isinstance(x, dict) or rec is None:
+        return False
+    if x.get('k') == 'var':
+        return x.get('record') == rec or x.get('name') in also
+    if x.get('k') == 'member':
+        return last_member(x) == PUBLIC_PRIV or (x.get('trecord') == rec and bool(x.get('tptr')))
+    return False
+
+
+def pool_pointers(g, S):
+    """Locals / parameters of the context that hold a pointer to a pool object without being typed so: the `void *` cookie of
+    a handler that is copied into the typed local (`pool = _pool`), or an untyped copy of a typed one (closure over plain
+    copies in either direction)."""
+    typed, pairs = set(), set()
+    for e in g.events():
+        for x in walk(e):
+            if x.get('k') == 'var' and x.get('record') == S.priv and S.priv is not None:
+                typed.add(x['name'])
+        if e['ev'] == 'store' and e.get('op') == '=' and 'rhs' in e:
+            a, b = varname(e['lhs']), varname(e['rhs'])
+            if a and b and a != b:
+                pairs.add((a, b))
+    out = set(typed)
+    grown = True
+    while grown:
+        grown = False
+        for a, b in pairs:
+            if (a in out) != (b in out):
+                out |= {a, b}
+                grown = True
+    return out - typed
+
+
+def teardown_kind(e, S, also=()):
+    """What a call event releases of a pool, by role: 'freed' (free of an object of the pool record), 'event' (the event whose
+    handler runs the completions is unregistered: no completion is delivered afterwards), 'lock' (the pool lock is destroyed).
+    None for every other event."""
+    if e['ev'] != 'call' or 'callee' not in e or not e.get('args'):
+        return None
+    nm = e['callee']
+    if nm == 'free':
+        return 'freed' if _points_to(e['args'][0], S.priv, also) else None
+    if nm == 'iv_event_unregister':
+        return 'event' if (S.ev is not None and arg_chain(e, 0) == S.ev) else None
+    if nm.endswith('_destroy') and nm not in LOCK_FUNCS and S.lock is not None:
+        a = strip(e['args'][0])
+        if isinstance(a, dict) and a.get('k') == 'addr' and lock_id(e['args'][0]) == S.lock:
+            return 'lock'
+    return None
+
+
+def teardown_object(e):
+    """the local that names the pool object a teardown event works on (`free(v)`, `f(&v->m)`); None if it is reached otherwise"""
+    a = e['args'][0]
+    return varname(a) or base_var(a)
 
 
 # --------------------------------------------------------------------------
